@@ -52,6 +52,7 @@ def default_params():
         hs_fail=[0, 0],             # budget of reconnections whose WebSocket negotiation fails
         gets_lag=False,             # Deferred API: get_message() lags behind the arrivals (see lag_ok)
         w_due=None,                 # scheduling weight of eventual-queue turns (default w_progress)
+        w_c2s=None,                 # [w0, w1] scheduling weight of the server reading each client's commands
         w_s2c=None,                 # [w0, w1] scheduling weight of server->client delivery per side (default w_progress)
         wl_cb="wc",                 # what the when_wordlist_is_available() callback does: wc | close | send
         get_in_close_cb=False,      # Deferred API: every get_*() is requested again from the callback of close()
@@ -599,6 +600,9 @@ def _run(P, rec, W, tape, on_step, setup, at_stable, adversary=None, on_idle=Non
             elif e[0] == "clock.due" and P.get("w_due"):
                 # a busy reactor: eventual-send turns (callLater(0)) run late relative to network events
                 choices.append((P["w_due"], e))
+            elif e[0] == "mb.c2s" and P.get("w_c2s") and e[1].svc in W.services[:2]:
+                # a server that reads this client's commands slowly: more of them are in flight when the connection drops
+                choices.append((P["w_c2s"][W.services.index(e[1].svc)], e))
             elif e[0] == "mb.s2c" and P.get("w_s2c") and e[1].svc in W.services[:2]:
                 # a slow reader: its inbound queue builds up (and is then duplicated / reordered as a whole)
                 choices.append((P["w_s2c"][W.services.index(e[1].svc)], e))
